@@ -9,6 +9,7 @@ import (
 	"net/http"
 	"sort"
 	"strings"
+	"sync"
 	"time"
 
 	"Havoc/pkg/handlers"
@@ -324,6 +325,30 @@ func RunRegistry(behs [][]Step, tr *Trace, env Env, sum *Summary) {
 					}
 					time.Sleep(80 * time.Millisecond)
 					ok = fmt.Sprint(s.project()) != before
+				case "SvcLeaveTogether":
+					// every service connection is cut at the same moment
+					start := make(chan struct{})
+					var wg sync.WaitGroup
+					for _, cl := range s.sc {
+						if cl == nil || cl.IsClosed() {
+							continue
+						}
+						wg.Add(1)
+						go func(cl *world.OpClient) {
+							defer wg.Done()
+							<-start
+							cl.Abort()
+						}(cl)
+					}
+					close(start)
+					wg.Wait()
+					for i := 0; i < 600 && w.TS.Service.VerifClients() != 0 && len(s.svc.Panics) == 0; i++ {
+						time.Sleep(5 * time.Millisecond)
+					}
+					time.Sleep(30 * time.Millisecond)
+					for k := range s.sc {
+						delete(s.sc, k)
+					}
 				case "SvcDisconnect":
 					before := w.TS.Service.VerifClients()
 					if cl := s.sc[a]; cl != nil {
